@@ -209,3 +209,10 @@ Theorem C14_source_tests_known :
   tests_known standard_open_base_code standard_open_base_known = true.
 Proof. exact standard_open_base_tests_known. Qed.
 Print Assumptions C14_source_tests_known.
+
+(* Standard.openSession as translated: every Open dials, first and unconditionally, with the
+   configuration openBase built; then the session and its pipes; the first failing step ends it *)
+From Scrapli Require Import StdSessionSrc.
+Theorem C14_open_session_is_source : open_session_ok = true.
+Proof. exact open_session_is_source. Qed.
+Print Assumptions C14_open_session_is_source.
